@@ -55,7 +55,7 @@ Succ(f) == f.cond = "NO_ERROR" /\ f.deliv = "DATA_COMPLETE" /\ f.fstat = "FILE_R
 FileOk(fs) == \E f \in fs : f.p = DstPath(cfg) /\ ~f.dir /\ f.d = cfg.file
 Collides(fs) == \E f \in fs : /\ f.p = DstPath(cfg) /\ ~f.dir /\ f.d # cfg.file
                               /\ S!FileChecksum(cfg.chk, f.d, Len(f.d)) = S!FileChecksum(cfg.chk, cfg.file, Len(cfg.file))
-Obs0 == [finS |-> <<>>, finD |-> <<>>, finPdu |-> <<>>, exc |-> {}, flt |-> {}, dStarted |-> FALSE, nS |-> 0, nD |-> 0, kf |-> {}, corrupt |-> FALSE]
+Obs0 == [finS |-> <<>>, finD |-> <<>>, finPdu |-> <<>>, exc |-> {}, flt |-> {}, dStarted |-> FALSE, nS |-> 0, nD |-> 0, kf |-> {}, corrupt |-> FALSE, lastEnvTxn |-> 0]
 FinRecs(ind, fs) ==
   LET f == SelectSeq(ind, LAMBDA i : i.k = "finished") IN
   [i \in DOMAIN f |-> [cond |-> f[i].cond, deliv |-> f[i].deliv, fstat |-> f[i].fstat,
@@ -141,7 +141,7 @@ DstCall(deliver, wrej) ==
          dr == D!DstDrain(c.h, -1) IN
      /\ hd' = dr.h /\ ds' = OnDs(dr.out) /\ sd' = IF deliver THEN Tail(sd) ELSE sd
      /\ obs' = [ObsCall("D", c, dr.out, dr.h.fs) EXCEPT !.kf = @ \cup KnownSig("D", hd, pkt, dr.out),
-                                                       !.corrupt = @ \/ wrej]
+                                                       !.corrupt = @ \/ wrej, !.lastEnvTxn = IF wrej THEN txn ELSE @]
      /\ settled' = IF ~deliver /\ dr.out = <<>> /\ dr.h = hd THEN settled \cup {"D"} ELSE settled \ {"D"}
   /\ budget' = IF wrej THEN budget - 1 ELSE budget
   /\ turn' = IF Canon THEN "S" ELSE turn
@@ -178,7 +178,7 @@ Fault(kind, l) ==
                     [] kind = "flip" -> <<[q[1] EXCEPT !.data[1] = Flip1(@)]>> \o Tail(q)
         IN IF l = "sd" THEN sd' = q2 /\ UNCHANGED ds ELSE ds' = q2 /\ UNCHANGED sd
   /\ budget' = budget - 1
-  /\ obs' = [obs EXCEPT !.corrupt = @ \/ kind = "flip"]
+  /\ obs' = [obs EXCEPT !.corrupt = @ \/ kind = "flip", !.lastEnvTxn = txn]
   /\ Hist(kind, IF l = "sd" THEN 0 ELSE 1)
   /\ UNCHANGED <<txn, cfg, hs, hd, cbud, cut, turn, settled>>
 \* the link falls silent for good: everything in flight and everything sent later is lost
@@ -206,7 +206,7 @@ CancelS ==
   /\ Open /\ "S" \in cbud /\ ~SrcClosed /\ hs.hasTid /\ (Canon => turn = "S")
   /\ LET c == S!SrcCancel(hs, cfg, TRUE, Now)
          dr == S!SrcDrain(c.h, -1) IN
-     /\ hs' = dr.h /\ sd' = OnSd(dr.out) /\ obs' = ObsCall("S", c, dr.out, hd.fs)
+     /\ hs' = dr.h /\ sd' = OnSd(dr.out) /\ obs' = [ObsCall("S", c, dr.out, hd.fs) EXCEPT !.lastEnvTxn = txn]
   /\ cbud' = cbud \ {"S"} /\ settled' = settled \ {"S"}
   /\ Hist("cancelS", 1)
   /\ UNCHANGED <<txn, cfg, hd, ds, budget, cut, turn>>
@@ -214,7 +214,7 @@ CancelD ==
   /\ Open /\ "D" \in cbud /\ hd.state = "BUSY" /\ (Canon => turn = "D")
   /\ LET c == D!DstCancel(hd, cfg, TRUE, Now)
          dr == D!DstDrain(c.h, -1) IN
-     /\ hd' = dr.h /\ ds' = OnDs(dr.out) /\ obs' = ObsCall("D", c, dr.out, dr.h.fs)
+     /\ hd' = dr.h /\ ds' = OnDs(dr.out) /\ obs' = [ObsCall("D", c, dr.out, dr.h.fs) EXCEPT !.lastEnvTxn = txn]
   /\ cbud' = cbud \ {"D"} /\ settled' = settled \ {"D"}
   /\ Hist("cancelD", 1)
   /\ UNCHANGED <<txn, cfg, hs, sd, budget, cut, turn>>
@@ -261,6 +261,12 @@ GoodEnd == /\ (cfg.indS.finished => Len(obs.finS) = NTx /\ \A i \in DOMAIN obs.f
            /\ (cfg.indD.finished => Len(obs.finD) = NTx /\ \A i \in DOMAIN obs.finD : GoodS(obs.finD[i]) /\ obs.finD[i].ok)
            /\ (cfg.mdOnly \/ FileOk(hd.fs))
 DoneIsGood == (Done /\ obs.kf = {}) => GoodEnd
+\* C11: whatever happened to the earlier transactions on the same handlers (faults, cancellations, abandonment), a later
+\* transaction that the environment leaves alone ends like one on fresh handlers: successfully, with an identical file
+LastTxnGood == (Done /\ obs.kf = {} /\ obs.lastEnvTxn < NTx) =>
+                 /\ (cfg.indS.finished => obs.finS # <<>> /\ GoodS(obs.finS[Len(obs.finS)]))
+                 /\ (cfg.indD.finished => obs.finD # <<>> /\ GoodS(obs.finD[Len(obs.finD)]) /\ obs.finD[Len(obs.finD)].ok)
+                 /\ (cfg.mdOnly \/ FileOk(hd.fs))
 Completes == <>Done
 \* ... unless a known finding was observed on the way (those runs are judged by the finding's own entry)
 CompletesKf == <>(Done \/ obs.kf # {})
